@@ -10,6 +10,11 @@ E1_NOTE = ("Trusted: SQLite (atomic commit, triggers), CPython, the harness seam
            "its environment variable), and the canonical-state abstraction of 2.4 (audited by bisimulation in C02 thorough). "
            "SQLite backend only.")
 
+E3_NOTE = ("Trusted: SQLite locking semantics (rollback-journal mode), the CPython GIL (preemption only at SQL statements / commits "
+           "of managed threads), the baton scheduler of vlib/e3.py (busy wait modelled as blocking; the 30 s busy timeout itself is not "
+           "modelled), sequential FIFO drain after the concurrent section. Threads-of-one-process deployment (shared processor objects, "
+           "thread-local connections).")
+
 CHECKS = {
     "C02": dict(
         engine="E1 sched",
